@@ -5,12 +5,15 @@
 # Writes /verif/seeded/CXX/{patch.diff,<demo>,meta.json}
 set -u
 ID=$1; shift; CHECKS="${@:-$ID}"
-W=/tmp/seed/$ID; O=/tmp/seed/$ID.out; V=/verif
+# SEEDROOT (default /tmp/seed) and SUFFIX (e.g. -2 for the second seeding round) select where the
+# sub-agent worked and under which name the change is kept: /verif/seeded/<ID><SUFFIX>
+SID=$ID${SUFFIX:-}
+W=${SEEDROOT:-/tmp/seed}/$ID; O=${SEEDROOT:-/tmp/seed}/$ID.out; V=/verif
 export GOFLAGS=-mod=mod GOPROXY=off; unset GOSUMDB
-if [ ! -f $O/patch.diff ] && [ -f $V/seeded/$ID/patch.diff ]; then
+if [ ! -f $O/patch.diff ] && [ -f $V/seeded/$SID/patch.diff ]; then
   # the sub-agent's worktree is gone: re-verify from what was kept under /verif/seeded
-  O=$V/seeded/$ID
-  DEMO_REL=$(python3 -c "import json;print(json.load(open('$V/seeded/$ID/meta.json'))['demo_file'])")
+  O=$V/seeded/$SID
+  DEMO_REL=$(python3 -c "import json;print(json.load(open('$V/seeded/$SID/meta.json'))['demo_file'])")
   W=/nonexistent
 fi
 [ -f $O/patch.diff ] || { echo "no patch.diff for $ID"; exit 2; }
@@ -18,7 +21,7 @@ if [ -z "${DEMO_REL:-}" ]; then
   DEMO_REL=$(git -C $W status --porcelain 2>/dev/null | grep '^??' | awk '{print $2}' | grep '_test.go$' | head -1)
   [ -z "$DEMO_REL" ] && DEMO_REL=$(cd $O && ls *_test.go 2>/dev/null | head -1)
 fi
-S=$(mktemp -d /tmp/seedchk.$ID.XXXX)
+S=$(mktemp -d /tmp/seedchk.$SID.XXXX)
 rsync -a --exclude .git /repo/ $S/
 DEMO_SRC=$W/$DEMO_REL; [ -f "$DEMO_SRC" ] || DEMO_SRC=$O/$(basename $DEMO_REL)
 DEMO_PKG=$(dirname $DEMO_REL)
@@ -43,11 +46,11 @@ if [ -z "${NOBASE:-}" ]; then
   bl=$($V/tools/baseline.sh $S 2>&1 | head -4 | tr '\n' ' ')
   res "baseline: $bl"
 fi
-mkdir -p $V/seeded/$ID
-[ "$O" = "$V/seeded/$ID" ] || { cp $O/patch.diff $V/seeded/$ID/patch.diff; cp $DEMO_SRC $V/seeded/$ID/; cp $O/notes.md $V/seeded/$ID/notes.md 2>/dev/null; }
-python3 - "$ID" "$S/result.txt" "$DEMO_REL" <<'PY'
+mkdir -p $V/seeded/$SID
+[ "$O" = "$V/seeded/$SID" ] || { cp $O/patch.diff $V/seeded/$SID/patch.diff; cp $DEMO_SRC $V/seeded/$SID/; cp $O/notes.md $V/seeded/$SID/notes.md 2>/dev/null; }
+python3 - "$ID" "$S/result.txt" "$DEMO_REL" "$SID" <<'PY'
 import json,sys,re
-pid,resf,demo=sys.argv[1:4]
+pid,resf,demo,sid=sys.argv[1:5]
 lines=open(resf).read().splitlines()
 meta={"property":pid,"demo_file":demo,"verification_log":lines,
       "demo_fails_with_change": any('demo_with_rc=1' in l for l in lines),
@@ -57,14 +60,14 @@ meta={"property":pid,"demo_file":demo,"verification_log":lines,
       "caught_by": [re.match(r'check (\S+):',l).group(1) for l in lines if l.startswith('check ') and 'VIOLATION' in l],
       "missed_by": [re.match(r'check (\S+):',l).group(1) for l in lines if l.startswith('check ') and 'VIOLATION' not in l]}
 try:
-    old=json.load(open('/verif/seeded/%s/meta.json'%pid))
+    old=json.load(open('/verif/seeded/%s/meta.json'%sid))
     if meta["repo_suite_passes_with_change"] is None and old.get("repo_suite_passes_with_change") is not None:
         meta["repo_suite_passes_with_change"]=old["repo_suite_passes_with_change"]
         meta["verification_log"]+= [l for l in old.get("verification_log",[]) if l.startswith("baseline:")]
 except Exception: pass
 try:
-    meta["summary"]=json.load(open('/verif/seeded/summaries.json')).get(pid,"")
+    meta["summary"]=json.load(open('/verif/seeded/summaries.json')).get(sid,"")
 except Exception: pass
-json.dump(meta,open('/verif/seeded/%s/meta.json'%pid,'w'),indent=1)
+json.dump(meta,open('/verif/seeded/%s/meta.json'%sid,'w'),indent=1)
 PY
 if [ -n "${KEEP:-}" ]; then echo "kept $S"; else rm -rf "/tmp/$(basename $S)"; fi
